@@ -525,10 +525,20 @@ Definition step (s : state) (e : event) : option state :=
           forallb (fun x =>
             negb (k_t x =? t) || (k_kind x =? KSubmission)
             || mem_z (k_id x) deps || past_main (k_st x)
-            || (stage_eqb (k_stage x) SIO && stage_eqb g SIO)) (tasks s)
+            || (stage_eqb (k_stage x) SIO && stage_eqb g SIO
+                && negb (tst_eqb (k_st x) TSubmitting))) (tasks s)   (* already in the IO queue *)
         else true in
+      (* the task that completes a download is its final task (download.py: is_final=True),
+         and IO writes are submitted / performed only from inside a GetObject main *)
+      let kind_ok :=
+        (negb (kind =? KIOFinal) || final)
+        && (negb (kind =? KIOWrite) ||
+            match find_task a (tasks s) with
+            | Some x => tst_eqb (k_st x) TMain && (k_kind x =? KGet)
+            | None => false
+            end) in
       if fresh && who_ok && deps_ok && coord_ok && phase_ok && kind_stage_ok kind g && (0 <=? k)
-         && no_final_yet && final_ok && forallb (fun x => k_id x <? k) (tasks s)
+         && no_final_yet && final_ok && kind_ok && forallb (fun x => k_id x <? k) (tasks s)
       then Some (set_tasks s (tasks s ++
              [mkTask k t g a final deps kind
                      (if stage_eqb g SInline then TQueued else TSubmitting)
@@ -539,7 +549,9 @@ Definition step (s : state) (e : event) : option state :=
       match find_task k (tasks s), find_sem sem (sems s) with
       | Some x, Some v =>
           if negb (in_request s a) && tst_eqb (k_st x) TSubmitting && (k_parent x =? a) && (k_permit x =? -1) && (0 <? v)
-             && ((sem =? sem_of_stage (k_stage x)) || (sem =? SEM_UP) || (sem =? SEM_DOWN))
+             && ((sem =? sem_of_stage (k_stage x))
+                 (* tag semaphores exist only on the request executor *)
+                 || (((sem =? SEM_UP) || (sem =? SEM_DOWN)) && stage_eqb (k_stage x) SReq))
           then Some (set_sems (set_tasks s (upd_task k (fun y => with_permit y sem) (tasks s)))
                               (upd_sem sem (-1) (sems s)))
           else None
@@ -624,7 +636,9 @@ Definition step (s : state) (e : event) : option state :=
               let sub_ok := if k_kind x =? KSubmission
                             then ok && ((k_phase x =? 2) || (k_phase x =? 5)) else true in
               (* a final task returns normally only after set_result *)
-              let fin_ok := if k_final x && ok then status_eqb (c_status c) Success else true in
+              (* a final task returns normally exactly when it has set the result
+                 (set_result is the last statement of _execute_main) *)
+              let fin_ok := if k_final x then Bool.eqb ok (status_eqb (c_status c) Success) else true in
               if tst_eqb (k_st x) TMain && sub_ok && fin_ok
               then Some (set_tasks s (upd_task k (fun y =>
                      if ok then with_st (with_flags y true true false) TPost
@@ -640,6 +654,10 @@ Definition step (s : state) (e : event) : option state :=
       match find_task k (tasks s) with
       | Some x =>
           if tst_eqb (k_st x) TMain && k_final x
+             (* the rename of a path download precedes the final task's set_result *)
+             && (if k_kind x =? KIOFinal
+                 then match find_file (k_t x) (files s) with Some f => f_renamed f | None => true end
+                 else true)
           then on_coord s (k_t x) (fun c => Some (c_with c Success None))
           else None
       | None => None
